@@ -3,14 +3,14 @@ from eonmc import fam_event_sis as fs
 
 LEVEL = "model_checking"
 TECHNIQUE = "exhaustive enumeration of user duration / delay-list rule behaviours (lazily enumerated per-call tables, infection budget) on the real fast_nonMarkov_SIS; each execution compared event by event with a plain sort-and-apply reference"
-LEVEL_TEXT = ("Every behaviour of the duration and delay-list rules over the alphabet (2 durations x 3 sorted lists per ordered edge, jittered so all event times are "
+LEVEL_TEXT = ("Every behaviour of the duration and delay-list rules over the alphabet (2 durations x 4 sorted lists per ordered edge incl. a delay beyond the source's recovery and a pair of delays further apart than a duration, jittered so all event times are "
               "distinct) up to the infection budget is executed on the real code, in both rule forms and return modes; the reported history (infections with "
               "sources, recoveries, arrays) must equal the plain semantics: attempts succeed iff the target is susceptible at that instant, nothing at or after tmax.")
 LEVEL_NOTE = "trusted: plain_sis reference; alphabet and infection budget (3/4); coincidence in law with fast_SIS for exponential rules follows from this semantics plus C02 by argument, not enumerated"
 RULE = "one spec = (graph, initial set, horizon, rule form, return mode, budget); every rule behaviour enumerated; non-trivial = at least one transmission beyond the initial infections"
-BOUNDS = {"quick": "P2,P3,K3; all I0; budget 3; exact tmax hit and shifted tmin",
-          "thorough": "adds C4,S4,P4; budget 4 on <=3 nodes"}
-ASSUMPTIONS = ["distinct event times (the property's precondition) via dyadic jitter", "delay lists sorted and before recovery (documented contract)"]
+BOUNDS = {"quick": "P2,P3,K3; all I0; 2 durations x 4 delay lists ([],[a],[a,b],[a,c], c beyond the shorter duration); infection budget 4 (P2), 3 (P3), 2 (K3); exact tmax hit, shifted and negative tmin",
+          "thorough": "adds C4,S4,P4 (budget 2); budgets 5/4/3"}
+ASSUMPTIONS = ["distinct event times (the property's precondition) via dyadic jitter", "delay lists are sorted; they are NOT assumed to lie before recovery (the property speaks of every listed delay)"]
 
 
 def specs(tier, seed):
